@@ -39,7 +39,7 @@ REQUIRED_REACH = ["mixed-dirichlet-neumann", "pure-dirichlet", "boundary-project
                   "two-splits-on-one-assembled-system", "complex-valued-projection", "complex-valued-boundary-projection",
                   "solution-of-small-magnitude", "straight-second-order-mesh", "projection-of-callable", "model-forms:poisson",
                   "model-forms:lame-parameters", "model-forms:plane-stress", "mesh-in-other-length-units",
-                  "projection-on-mesh-in-other-length-units"]
+                  "projection-on-mesh-in-other-length-units", "boundary-parts-by-default-side-names"]
 
 # (record name, degree of the manufactured solution)
 COMPLETE = {
@@ -194,10 +194,37 @@ def scalar_patch(ctx, k, kind):
     Dfac, Nfac = boundary_split(rng, mesh, allow_empty_dirichlet=reaction)
     if kind == "wedge" and Nfac.size:
         Dfac, Nfac = np.asarray(mesh.boundary_facets()).astype(np.int32), np.zeros(0, dtype=np.int32)  # no FacetBasis for prisms
+    # box-shaped domains: the boundary parts given by the NAMES the library attaches to the sides ('left', 'top', ...), the
+    # exact data integrated where the harness' own geometry says the sides are
+    Dsel, Nsel = Dfac, Nfac
+    if d >= 2 and kind != "wedge" and mc.order == 1 and rng.random() < 0.6:
+        Pm, Fm = np.asarray(mesh.p), np.asarray(mesh.facets)
+        bfm = np.asarray(mesh.boundary_facets())
+        sides = {}
+        for ax_, (lo_n, hi_n) in enumerate((("left", "right"), ("bottom", "top"), ("front", "back"))[:d]):
+            for nm_, ext_ in ((lo_n, Pm[ax_].min()), (hi_n, Pm[ax_].max())):
+                sides[nm_] = np.array([f_ for f_ in bfm if (Pm[ax_, Fm[:, f_]] == ext_).all()], dtype=np.int32)
+        if sum(v.size for v in sides.values()) == bfm.size and all(v.size for v in sides.values()):
+            tagged = mesh.with_defaults()
+            if tagged.boundaries is not None and all(n_ in tagged.boundaries for n_ in sides):
+                mesh = tagged
+                basis = skfem.CellBasis(mesh, elem, intorder=order)
+                nm_all = list(sides)
+                pick = rng.random(len(nm_all)) < 0.5
+                if not pick.any() and not reaction:
+                    pick[int(rng.integers(len(nm_all)))] = True
+                Dn = [n_ for n_, p_ in zip(nm_all, pick) if p_]
+                Nn = [n_ for n_, p_ in zip(nm_all, pick) if not p_]
+                Dfac = np.concatenate([sides[n_] for n_ in Dn]).astype(np.int32) if Dn else np.zeros(0, dtype=np.int32)
+                Nfac = np.concatenate([sides[n_] for n_ in Nn]).astype(np.int32) if Nn else np.zeros(0, dtype=np.int32)
+                Dsel, Nsel = (Dn if Dn else Dfac), (Nn if Nn else Nfac)
+                ctx.reached("boundary-parts-by-default-side-names")
     if Nfac.size:
         if d == 1:
             # 1-D: boundary "integral" is a point evaluation with outward normal
             fb = skfem.FacetBasis(mesh, rec.make(), facets=Nfac)
+        elif isinstance(Nsel, list):
+            fb = skfem.FacetBasis(mesh, rec.make(), facets=Nsel, intorder=min(order, {"tet": 19, "tri": 12}.get(kind, order)))
         elif Nfac.size >= 2 and opt_tags:
             # the natural part named by a list of two overlapping facet tags: their union, each facet once
             N1 = Nfac[: max(1, (2 * Nfac.size) // 3)]
@@ -214,13 +241,13 @@ def scalar_patch(ctx, k, kind):
                split=split, nD=int(Dfac.size), nN=int(Nfac.size))
     monitor = "patch-test-reaction-diffusion" if reaction else "patch-test-poisson"
     if Dfac.size:
-        Dd = basis.get_dofs(Dfac)
+        Dd = basis.get_dofs(Dsel)
         # the stated pipeline: the DOFs returned by the library are constrained to the *boundary L2 projection* of the
         # data (a stray DOF in the returned set has no support on the Dirichlet facets and makes this projection fail or
         # wrong, whereas prescribing exact nodal values at whatever is returned would mask it)
         can_project = d > 1 and kind != "wedge"
         if can_project:
-            fbD = skfem.FacetBasis(mesh, rec.make(), facets=Dfac, intorder=min(order, {"tet": 19, "tri": 12}.get(kind, order)))
+            fbD = skfem.FacetBasis(mesh, rec.make(), facets=Dsel, intorder=min(order, {"tet": 19, "tri": 12}.get(kind, order)))
             with np.errstate(all="ignore"):
                 xD = fbD.project(lambda x: u_fn(x))
             ctx.reached("boundary-projection-used")
